@@ -32,16 +32,21 @@ theorem c08_add_effect (s : St) (p : Nat) (cEnt : List Nat) (cFeat : Nat) (sEnt 
     simp [h1']
 
 theorem target_clean (p cDev : Nat) :
-    target Cfg.clean p cDev = if (cDev = 0 || cDev = p) = true then some p else none := by
-  unfold target Cfg.clean
+    target false p cDev = if (cDev = 0 || cDev = p) = true then some p else none := by
+  unfold target
   by_cases hd : (cDev = 0 || cDev = p) = true <;> simp [hd]
+
+theorem clean_delSub : Cfg.clean.delSubByDevice = false := rfl
+theorem clean_delBind : Cfg.clean.delBindByDevice = false := rfl
+theorem clean_disjunct : Cfg.clean.unbindDisjunct = false := rfl
+theorem clean_dropAny : Cfg.clean.dropBindsAnyPeer = false := rfl
 
 /-- repaired code: a delete request removes exactly the addressed pair of the requesting peer, or nothing -/
 theorem c08_delete_exact (s : St) (p cDev : Nat) (cEnt : List Nat) (cFeat : Nat) (sEnt : List Nat) (sFeat : Nat) :
     (delSub Cfg.clean s p cDev cEnt cFeat sEnt sFeat).1.subs = s.subs ∨
     (delSub Cfg.clean s p cDev cEnt cFeat sEnt sFeat).1.subs = s.subs.filter (fun e => !e.is p cEnt cFeat sEnt sFeat) := by
   unfold delSub
-  rw [target_clean]
+  rw [clean_delSub, target_clean]
   split
   · by_cases hd : (cDev = 0 || cDev = p) = true
     · rw [if_pos hd]
@@ -123,19 +128,12 @@ theorem delBind_atMostOne (c : Cfg) (s : St) (h : AtMostOne s) (p cDev : Nat) (c
 theorem dropPeer_atMostOne (c : Cfg) (s : St) (h : AtMostOne s) (p : Nat) : AtMostOne (dropPeer c s p) :=
   atMostOne_filter s h _ _ rfl
 
-inductive Op
-  | bind (p : Nat) (cEnt : List Nat) (cFeat : Nat) (sEnt : List Nat) (sFeat typ : Nat)
-  | unbind (p cDev : Nat) (cEnt : List Nat) (cFeat : Nat) (sEnt : List Nat) (sFeat : Nat)
-  | sub (p : Nat) (cEnt : List Nat) (cFeat : Nat) (sEnt : List Nat) (sFeat typ : Nat)
-  | unsub (p cDev : Nat) (cEnt : List Nat) (cFeat : Nat) (sEnt : List Nat) (sFeat : Nat)
-  | drop (p : Nat)
-
-def step (c : Cfg) (s : St) : Op → St
-  | .bind p ce cf se sf t => (addBind s p ce cf se sf t).1
-  | .unbind p cd ce cf se sf => (delBind c s p cd ce cf se sf).1
-  | .sub p ce cf se sf t => (addSub s p ce cf se sf t).1
-  | .unsub p cd ce cf se sf => (delSub c s p cd ce cf se sf).1
-  | .drop p => dropPeer c s p
+theorem dropEntity_atMostOne (c : Cfg) (s : St) (h : AtMostOne s) (p : Nat) (ent : List Nat) :
+    AtMostOne (dropEntity c s p ent) := by
+  unfold dropEntity
+  split
+  · exact h
+  · exact atMostOne_filter s h _ _ rfl
 
 theorem binds_sub (s : St) (p : Nat) (ce : List Nat) (cf : Nat) (se : List Nat) (sf t : Nat) :
     (addSub s p ce cf se sf t).1.binds = s.binds := by
@@ -167,6 +165,14 @@ theorem c09_at_most_one (c : Cfg) (loc : List Feat) (rem : Nat → List Feat) (o
     | unsub p cd ce cf se sf =>
       intro a b; have := h a b; simp only [step, onServer, binds_unsub] at this ⊢; exact this
     | drop p => exact dropPeer_atMostOne c s h p
+    | dropEnt p ent => exact dropEntity_atMostOne c s h p ent
+
+theorem unbindKeep_clean (p cDev : Nat) (cEnt : List Nat) (cFeat : Nat) (sEnt : List Nat) (sFeat : Nat) (e : Entry) :
+    unbindKeep Cfg.clean p cDev cEnt cFeat sEnt sFeat e =
+      if (cDev = 0 || cDev = p) = true then !e.is p cEnt cFeat sEnt sFeat else true := by
+  unfold unbindKeep
+  rw [clean_disjunct, clean_delBind, target_clean]
+  by_cases hd : (cDev = 0 || cDev = p) = true <;> simp [hd]
 
 /-- repaired code: a binding delete removes exactly the addressed binding of the requesting peer, or nothing -/
 theorem c09_delete_exact (s : St) (p cDev : Nat) (cEnt : List Nat) (cFeat : Nat) (sEnt : List Nat) (sFeat : Nat) :
@@ -174,25 +180,26 @@ theorem c09_delete_exact (s : St) (p cDev : Nat) (cEnt : List Nat) (cFeat : Nat)
     (delBind Cfg.clean s p cDev cEnt cFeat sEnt sFeat).1.binds =
       s.binds.filter (fun e => !e.is p cEnt cFeat sEnt sFeat) := by
   unfold delBind
-  rw [target_clean]
   split
   · split
     · exact Or.inl rfl
     · split
       · exact Or.inl rfl
-      · by_cases hd : (cDev = 0 || cDev = p) = true
-        · rw [if_pos hd]
-          simp only [Cfg.clean, Bool.false_eq_true, if_false]
-          split
-          · exact Or.inl rfl
-          · exact Or.inr rfl
-        · rw [if_neg hd]
-          simp only [Cfg.clean, Bool.false_eq_true, if_false, Bool.not_false]
-          left
-          split
-          · rfl
-          · rename_i hne
-            exact absurd (by simp) hne
+      · dsimp only
+        split
+        · exact Or.inl rfl
+        · rename_i hne
+          by_cases hd : (cDev = 0 || cDev = p) = true
+          · right
+            apply List.filter_congr
+            intro e _
+            rw [unbindKeep_clean, if_pos hd]
+          · exfalso
+            apply hne
+            congr 1
+            rw [List.filter_eq_self]
+            intro e _
+            rw [unbindKeep_clean, if_neg hd]
   · exact Or.inl rfl
 
 /-- the code as written: deleting one binding of a client deletes its other binding too -/
